@@ -94,7 +94,7 @@ func TestCheck(t *testing.T) {
 		// coverage table: storage method x flows in which an injected fault fired in it
 		all := storageMethods()
 		table := map[string]any{}
-		var missing []string
+		missing := []string{}
 		for _, m := range all {
 			fl := rep.Coverage[m]
 			if len(fl) == 0 {
